@@ -165,23 +165,41 @@ CORE = {
 }
 
 TIERS = {
-    'quick': dict(mc_family='hand+core6', mc_budget=1, mc_workers=8, mc_timeout=900,
-                  rand_family='hand+core6', rand_runs=2400, rand_shards=8, rand_budget=4, rand_pact=0.35,
-                  nat_runs=1000, nat_shards=2),
-    'thorough': dict(mc_family='hand+core7', mc_budget=2, mc_workers=12, mc_timeout=7200,
-                     rand_family='hand+core7+branchy', rand_runs=40000, rand_shards=14, rand_budget=5,
-                     rand_pact=0.35, nat_runs=20000, nat_shards=4),
+    # mc: list of (family, client action budget); rand: list of (family, runs, shards)
+    'quick': dict(mc=[('hand+core6', 1), ('handseq', 2)], mc_workers=8, mc_timeout=900,
+                  rand=[('hand', 1200, 4), ('core6', 1800, 6)], rand_budget=4, rand_pact=0.35,
+                  nat_family='hand+core6', nat_runs=1000, nat_shards=2),
+    'thorough': dict(mc=[('hand+core7', 2), ('handseq', 3)], mc_workers=12, mc_timeout=7200,
+                     rand=[('hand', 12000, 4), ('core7+branchy', 40000, 10)], rand_budget=5,
+                     rand_pact=0.35, nat_family='hand+core7', nat_runs=20000, nat_shards=4),
 }
 
 
 def mc_check(prop, tier):
-    """TLC on the specification. Returns dict(states, transitions, violated, trace_json, wall, cfg)."""
+    """TLC on the specification, one run per (family, budget) of the tier; stops at the first violated run."""
+    t = TIERS[tier]
+    runs = []
+    for i, (famname, budget) in enumerate(t['mc']):
+        r = mc_one(prop, tier, famname, budget, i)
+        runs.append(r)
+        if r['violated']:
+            break
+    last = runs[-1]
+    return dict(states=sum(r['states'] for r in runs), transitions=sum(r['transitions'] for r in runs),
+                violated=last['violated'], trace_json=last['trace_json'], wall=sum(r['wall'] for r in runs),
+                family=last['family'], models=sum(r['models'] for r in runs), budget=[r['budget'] for r in runs],
+                invariants=last['invariants'],
+                runs=[dict(family=os.path.basename(r['family']), models=r['models'], budget=r['budget'],
+                           states=r['states'], transitions=r['transitions'], wall=round(r['wall'], 1)) for r in runs])
+
+
+def mc_one(prop, tier, famname, budget, idx):
     invs, props = CORE[prop]
     t = TIERS[tier]
-    fam = family(t['mc_family'])
-    cfg = MC_CONSTANTS % dict(budget=t['mc_budget'], kinds=', '.join('"%s"' % k for k in ALL_KINDS))
+    fam = family(famname)
+    cfg = MC_CONSTANTS % dict(budget=budget, kinds=', '.join('"%s"' % k for k in ALL_KINDS))
     cfg += ''.join('INVARIANT %s\n' % i for i in invs) + ''.join('PROPERTY %s\n' % p for p in props)
-    tag = 'mc-%s-%s' % (prop, tier)
+    tag = 'mc-%s-%s-%d' % (prop, tier, idx)
     dump = '%s/cfg/%s.trace.json' % (WORK, tag)
     if os.path.exists(dump):
         os.remove(dump)
@@ -195,7 +213,7 @@ def mc_check(prop, tier):
     elif 'Error:' in out or states == 0:
         raise ToolError('TLC failed on %s:\n%s' % (tag, out[-3000:]))
     return dict(states=states, transitions=trans, violated=violated, trace_json=dump if violated else None,
-                wall=wall, family=fam, models=count_lines(fam), budget=t['mc_budget'], invariants=invs + props)
+                wall=wall, family=fam, models=count_lines(fam), budget=budget, invariants=invs + props)
 
 
 # --------------------------------------------------------------------------------------------
@@ -309,17 +327,21 @@ def record_traces(tier, seed, key):
         jobs.append((out, [HARNESS, 'replay', '--models', reg_models, '--behaviours', reg_beh, '--out', out,
                            '--drain', '--workdir', d + '/run']))
     # 2. seeded random gated runs (impl -> spec)
-    fam = family(t['rand_family'])
+    n = 0
+    for famname, runs, shards in t['rand']:
+        fam = family(famname)
+        nmodels = count_lines(fam)
+        per = (runs + shards - 1) // shards
+        for i in range(shards):
+            out = '%s/rand-%02d.ndjson' % (d, n)
+            kinds = ','.join(ALL_KINDS + ['complete', 'complete', 'abort', 'error', 'error', 'skip'])
+            jobs.append((out, [HARNESS, 'random', '--models', fam, '--out', out, '--runs', str(per),
+                               '--seed', str(seed * 1000 + n), '--offset', str((i * per) % nmodels),
+                               '--pact', str(t['rand_pact']), '--budget', str(t['rand_budget']), '--kinds', kinds,
+                               '--workdir', d + '/run']))
+            n += 1
+    fam = family(t['nat_family'])
     nmodels = count_lines(fam)
-    shards = t['rand_shards']
-    per = (t['rand_runs'] + shards - 1) // shards
-    for i in range(shards):
-        out = '%s/rand-%02d.ndjson' % (d, i)
-        kinds = ','.join(ALL_KINDS + ['complete', 'complete', 'abort', 'error', 'skip'])
-        jobs.append((out, [HARNESS, 'random', '--models', fam, '--out', out, '--runs', str(per),
-                           '--seed', str(seed * 1000 + i), '--offset', str((i * per) % nmodels),
-                           '--pact', str(t['rand_pact']), '--budget', str(t['rand_budget']), '--kinds', kinds,
-                           '--workdir', d + '/run']))
 
     # 3. ungated runs on current-thread and 1..8-worker runtimes (thread-count independence);
     #    one process at a time per harness process, so few shards
@@ -472,6 +494,7 @@ def check_core(prop, tier, seed):
     # a violation on the specification: replay the counterexample on the engine
     if mc['violated']:
         beh = '%s/cfg/mc-%s-%s.beh.ndjson' % (WORK, prop, tier)
+        log('replaying the counterexample of the specification on the engine')
         p = sh(['python3', VERIF + '/tools/cex2beh.py', mc['trace_json'], 'cex-' + prop], check=True)
         with open(beh, 'w') as fh:
             fh.write(p.stdout)
@@ -508,7 +531,7 @@ def check_core(prop, tier, seed):
         states=mc['states'], transitions=mc['transitions'], traces_validated_against_impl=n_acc,
         samples=samples, exhaustive=True,
         model_checking=dict(spec='spec/Acts.tla + spec/ActsProps.tla', invariants=mc['invariants'],
-                            family=os.path.basename(mc['family']), models=mc['models'],
+                            runs=mc['runs'], models=mc['models'],
                             client_action_budget=mc['budget'], action_kinds=ALL_KINDS,
                             queue='bag: every arrival order', tlc_wall_s=round(mc['wall'], 1)),
         conformance=dict(scenarios=n_scen, natural_runs_observed=n_nat, trace_lines=n_lines, strict_accepted=n_acc,
